@@ -115,6 +115,9 @@ def readsOf (tomb : Bool) (nblocks nkeys : Nat) (im : Img) : List (Nat × Option
   let disk : List DiskEnt := placed.map fun (b, p) =>
     -- `load` reads `align_up(len)` bytes at the indexed position and accepts any entry there whose header,
     -- range and checksum are fine; the caller then compares the decoded key
+    -- an indexed range that leaves the block (only a misdirected index page can produce one) makes the
+    -- device read fail: the lookup reports an error and the index keeps the entry
+    if p.off + alignUp PAGE p.len > cfgL.B then { key := 1000000009, hash := p.hash, ver := 0, seq := p.seq } else
     match im.ents.find? (fun s => s.block = b && s.off = p.off && alignUp PAGE s.e.len ≤ alignUp PAGE p.len) with
     | some s => { key := s.e.key, hash := p.hash, ver := s.e.ver, seq := p.seq }
     | none => { key := 1000000007, hash := p.hash, ver := 0, seq := p.seq }     -- unreadable: every lookup misses
@@ -135,7 +138,7 @@ def readsOf (tomb : Bool) (nblocks nkeys : Nat) (im : Img) : List (Nat × Option
   let ix := victims.foldl (fun ix p => indexRemoveSeq ix p.hash p.seq) ix0
   (List.range nkeys).map fun k =>
     match indexAddr ix k with
-    | some e => if e.key = k then (k, some e.ver) else (k, none)
+    | some e => if e.key = 1000000009 then (k, some 18446744073709551614) else if e.key = k then (k, some e.ver) else (k, none)
     | none => (k, none)
 
 def showReads (r : List (Nat × Option Nat)) : String :=
